@@ -17,7 +17,12 @@ Read from the `ast` of /repo's *current* source (nothing is imported or run); fo
 * rank: `comb[ref - 1]` after `comb.sort()`, NaN also when `ref - 1 >= len(comb)`;
 * combine: ids start at `value = 1`, step `value += 1`, dictionary membership by the tuple, the placeholder
   pass, `attrs=dict(key=<id -> tuple>)`;
-* cell_stats: the `funcs` table and `funcs[func](comb)` per cell.
+* cell_stats: the `funcs` table and `funcs[func](comb)` per cell;
+* the *layer selection* (`SelectShape`) of every operator: the `if data_vars:` branch only validates (every statement
+  is an `if …: raise …`; `data_vars` is used as passed), the `else` branch starts from `list(raster.data_vars)` and --
+  for the operators with a reference layer -- takes the reference variable out *by value*: `data_vars.remove(ref_var)`,
+  or a comprehension filtered with `!=` / `not in`; a filter that compares the *names by identity* (`var is not
+  ref_var`) or anything else is `.other "<source>"`.
 
 Local names are never compared; an unrecognised piece gives `ok := false` / `.other`, which the theorems of
 Props/C17.lean reject.
@@ -477,6 +482,82 @@ def stats_shape(mod, f):
     return fr, sh
 
 
+# ---------------------------------------------------------------- the layer selection (data_vars / ref_var)
+def select_shape(f):
+    """how `data_vars` is resolved: never raises (an unreadable piece leaves its field at the rejecting value)"""
+    argn = [a.arg for a in f.args.args]
+    has_ref = "ref_var" in argn
+    sh = dict(ok=False, hasRef=has_ref, explicitAsGiven=False, defaultAll=False,
+              dropRef=("other", "?") if has_ref else "byValue")
+    if "data_vars" not in argn or not argn:
+        return sh
+    raster = argn[0]
+
+    def is_dv_test(t):
+        if is_name(t, "data_vars"):
+            return True
+        return isinstance(t, ast.Compare) and len(t.ops) == 1 and isinstance(t.ops[0], ast.IsNot) \
+            and is_name(t.left, "data_vars") and isinstance(t.comparators[0], ast.Constant) and t.comparators[0].value is None
+    top = [s for s in f.body if isinstance(s, ast.If) and is_dv_test(s.test)]
+    if len(top) != 1:
+        return sh
+    br = top[0]
+    # every store to `data_vars` lives in the else branch
+    stores = [n for n in ast.walk(f) if isinstance(n, ast.Name) and n.id == "data_vars" and isinstance(n.ctx, (ast.Store, ast.Del))]
+    in_else = [n for s in br.orelse for n in ast.walk(s) if isinstance(n, ast.Name) and n.id == "data_vars"
+               and isinstance(n.ctx, (ast.Store, ast.Del))]
+    # mutating calls on data_vars (remove / sort / pop / …) outside the else branch
+    def mutators(stmts):
+        return [n for s in stmts for n in ast.walk(s) if isinstance(n, ast.Call) and isinstance(n.func, ast.Attribute)
+                and is_name(n.func.value, "data_vars")
+                and n.func.attr in ("remove", "sort", "pop", "append", "insert", "extend", "reverse", "clear")]
+    validates = all(isinstance(s, ast.If) and not s.orelse and len(s.body) == 1 and isinstance(s.body[0], ast.Raise) for s in br.body)
+    sh["explicitAsGiven"] = bool(validates and len(stores) == len(in_else)
+                                 and len(mutators(f.body)) == len(mutators(br.orelse)))
+    # the else branch
+    els = list(br.orelse)
+    all_src = f"list({raster}.data_vars)"
+    if els and isinstance(els[0], ast.Assign) and len(els[0].targets) == 1 and is_name(els[0].targets[0], "data_vars"):
+        v = els[0].value
+        if ast.unparse(v) == all_src:
+            sh["defaultAll"] = True
+            rest = els[1:]
+            if not has_ref:
+                sh["ok"] = not rest
+            elif len(rest) == 1 and isinstance(rest[0], ast.Expr) and ast.unparse(rest[0].value) == "data_vars.remove(ref_var)":
+                sh["dropRef"] = "byValue"               # list.remove compares with ==
+                sh["ok"] = True
+            else:
+                sh["dropRef"] = ("other", "; ".join(ast.unparse(s) for s in rest) or "the reference variable is not removed")
+        elif isinstance(v, ast.ListComp) and len(v.generators) == 1 and is_name(v.generators[0].target) \
+                and is_name(v.elt, v.generators[0].target.id) \
+                and ast.unparse(v.generators[0].iter) in (f"{raster}.data_vars", all_src):
+            var = v.generators[0].target.id
+            ifs = v.generators[0].ifs
+            sh["defaultAll"] = True
+            if not has_ref:
+                sh["ok"] = not ifs and len(els) == 1
+            elif len(ifs) == 1 and len(els) == 1:
+                t = ifs[0]
+                by_value = False
+                if isinstance(t, ast.Compare) and len(t.ops) == 1:
+                    a, b2 = t.left, t.comparators[0]
+                    pair = (is_name(a, var) and is_name(b2, "ref_var")) or (is_name(a, "ref_var") and is_name(b2, var))
+                    if pair and isinstance(t.ops[0], ast.NotEq):
+                        by_value = True                  # `var != ref_var`
+                    if isinstance(t.ops[0], ast.NotIn) and is_name(a, var) and ast.unparse(b2) in ("[ref_var]", "(ref_var,)", "{ref_var}"):
+                        by_value = True                  # `var not in [ref_var]`
+                if by_value:
+                    sh["dropRef"] = "byValue"
+                    sh["ok"] = True
+                else:
+                    sh["dropRef"] = ("other", ast.unparse(t))   # e.g. `var is not ref_var`: names compared by identity
+            else:
+                sh["dropRef"] = ("other", ast.unparse(v))
+    sh["ok"] = bool(sh["ok"] and sh["explicitAsGiven"])
+    return sh
+
+
 # ---------------------------------------------------------------- emission
 BAD_FRAME = dict(ok=False, order=("other", "?"), layersInOrder=False, reshapeByCols=False)
 
@@ -501,6 +582,7 @@ def generate(repo):
     mod = ast.parse(open(os.path.join(repo, REL)).read())
     rep = {}
     frames = []
+    selects = []
     out = {}
 
     def run(name, fn, default):
@@ -519,8 +601,12 @@ def generate(repo):
                 except NoMatch:
                     pass
         frames.append((name, fr))
+        sel = select_shape(f) if f is not None else dict(ok=False, hasRef=False, explicitAsGiven=False, defaultAll=False,
+                                                         dropRef=("other", "function not found"))
+        selects.append((name, sel))
         out[name] = sh
         rep[name] = dict(frame={k: (list(v) if isinstance(v, tuple) else v) for k, v in fr.items()},
+                         select={k: (list(v) if isinstance(v, tuple) else v) for k, v in sel.items()},
                          **{k: (list(v) if isinstance(v, tuple) else v) for k, v in sh.items()})
     FREQ0 = dict(ok=False, nanTest=("other", "?"), cmp=("other", "?"), countInit=0, countStep=0, refRowMajor=False)
     POS0 = dict(ok=False, nanTest=("other", "?"), sel=("other", "?"), offset=0)
@@ -555,6 +641,11 @@ def generate(repo):
         "/-- the nditer loop, the per-cell loop and the reshape of every operator -/",
         "def localFrames : List (String × Frame) := [",
         ",\n".join(f"  ({lean_str(nm)}, {lean_frame(fr)})" for nm, fr in frames) + "]",
+        "",
+        "/-- how every operator resolves `data_vars` (and takes the reference variable out of the default selection) -/",
+        "def localSelects : List (String × SelectShape) := [",
+        ",\n".join(f"  ({lean_str(nm)}, {{ ok := {b(se['ok'])}, hasRef := {b(se['hasRef'])}, explicitAsGiven := {b(se['explicitAsGiven'])}, "
+                    f"defaultAll := {b(se['defaultAll'])}, dropRef := {tag(se['dropRef'])} }})" for nm, se in selects) + "]",
         "",
         "/-- the test under which each operator writes NaN for a cell -/",
         "def localNanTests : List (String × NanTest) := [",
